@@ -21,6 +21,7 @@ CHECKS = {
     "C08": rust("model_checking", [("std", "c08", [])], [("std", "c08", []), ("nostd", "c08", [])]),
     "C18": rust("model_checking", [("std", "c18", [])]),
     "C12": rust("model_checking", [("std", "c12", [])], [("std", "c12", []), ("nostd", "c12", [])]),
+    "C13": rust("model_checking", [("std", "c13", [])], [("std", "c13", []), ("nostd", "c13", [])]),
     "C03": rust("model_checking", [("std", "c03", [])], [("std", "c03", []), ("nostd", "c03", [])]),
 }
 
